@@ -440,6 +440,14 @@ class Stream(object):
 
         Coroutine.
         '''
+        if not self._connection.closed() \
+                and self._connection.has_unread_data():
+            # The server sent bytes that no request asked for, such as
+            # more than Content-Length. They cannot be told apart from
+            # the next response so they are discarded with the connection.
+            _logger.debug('Unread data on connection. Closing connection.')
+            self._connection.close()
+
         if self._connection.closed():
             self._connection.reset()
 
